@@ -61,6 +61,12 @@ def tpl_reject(size, m, pfx, locked, closed, notcoro, c, dup, _twin=False):
             if pfx >= 2:
                 it.release(0)
                 w.settle()
+            if pfx >= 3:
+                it.cancel(1)
+                w.settle()
+            if pfx >= 4:
+                it.flush(True)
+                w.settle()
             if closed:
                 w.drain()
                 g = it.gather_and_close(True)
@@ -193,12 +199,12 @@ def tpl_size(size, v, k, ctor, _twin=False):
 
 def families(tier):
     P = ["size", "m", "pfx", "locked", "closed", "notcoro", "c", "dup"]
-    pre = ["size >= 0", "0 <= m <= 4", "0 <= pfx <= 2", "0 <= locked <= 1", "0 <= closed <= 1", "0 <= notcoro <= 1", "0 <= dup <= 1"]
+    pre = ["size >= 0", "0 <= m <= 4", "0 <= pfx <= 4", "0 <= locked <= 1", "0 <= closed <= 1", "0 <= notcoro <= 1", "0 <= dup <= 1"]
     if tier != "thorough":
         pre += ["c <= 2"]
     return [
         Family(name="reject", fn="tpl_reject", params=P, pre=pre,
-               parts=parts_product(m=range(5), pfx=range(3), closed=(0, 1)),
+               parts=parts_product(m=range(5), pfx=range(5), closed=(0, 1)),
                twin_pre=["m == 1", "pfx == 1", "closed == 0", "locked == 1"], twin_args=[2, 1, 1, 1, 0, 0, 1, 0]),
         Family(name="size", fn="tpl_size", params=["size", "v", "k", "ctor"],
                pre=["size >= 0", "0 <= k <= 3", "0 <= ctor <= 1"], parts=parts_product(ctor=(0, 1), k=range(4)),
